@@ -362,6 +362,20 @@ def _mem2_newton_point(
 
 
 @numba.njit(cache=True)
+def newton_update(jacobian, current_func, rcond):
+    """
+    Solve jacobian @ delta = - current_func for the Newton update. Falls back to a
+    least squares estimate if the Jacobian is not positive definite. To note: the
+    try/except has to live in its own jitted function - if it is placed inside the
+    iteration loop of the solver the compiled code does not intercept the exception.
+    """
+    try:
+        return solve_cholesky(jacobian, -current_func)
+    except Exception:
+        return np.linalg.lstsq(jacobian, -current_func, rcond=rcond)[0]
+
+
+@numba.njit(cache=True)
 def mem2_newton_solver(
     moments: np.ndarray,
     guess: np.ndarray,
@@ -442,10 +456,7 @@ def mem2_newton_solver(
         jacobian = mem2_jacobian(
             current_iterate, twiddle_factors, direction_increment, jacobian
         )
-        try:
-            update_iterate = solve_cholesky(jacobian, -current_func)
-        except Exception:
-            update_iterate = np.linalg.lstsq(jacobian, -current_func, rcond=rcond)[0]
+        update_iterate = newton_update(jacobian, current_func, rcond)
 
         magnitude_current_iterate = np.linalg.norm(current_iterate)
         magnitude_update = np.linalg.norm(update_iterate)
